@@ -38,6 +38,10 @@ def replay (j : Json) : R Verdict := do
     let n := c.maxEval.getD 0
     if calls > n then pf := pf ++ [s!"C03: {calls} evaluations started, budget {n}"]
     if maxLive > nc then pf := pf ++ [s!"C05: {maxLive} evaluations in progress at once, num_concurrent {nc}"]
+    if (fieldD j "barrier").getBool?.toOption == some true then
+      tags := s!"run:barrier-nc={nc}" :: tags
+      if maxLive < Nat.min nc n then
+        pf := pf ++ [s!"C05: threaded launcher, num_concurrent {nc}, budget {n}: at most {maxLive} evaluations were ever in progress at once (the others waited although slots and budget were free)"]
     let reachable := match c.target with | some t => F64.le (.fin 0) t | none => false   -- 1e9: reached by the first accepted result
     let okj := ret.getObjVal? "ok"
     match okj with
